@@ -70,6 +70,11 @@ func (s *C15Script) Source() string {
 			ls = append(ls, asg("m")+"{}", "m.k = "+fmt.Sprint(st.C), "m.j = ins")
 		case "loop":
 			ls = append(ls, asg("acc")+"0", "for acc < "+fmt.Sprint(st.C)+" {", "	acc += 3", "}")
+		case "loopi":
+			// a block-scoped loop variable takes a global slot of its own without being a named global
+			ls = append(ls, asg("acc2")+"0", "for i := 0; i < "+fmt.Sprint(st.C)+"; i++ {", "	acc2 += i", "}")
+		case "ifblk":
+			ls = append(ls, asg("blk")+"0", "if tmp := ini; tmp != 0 {", "	blk = tmp + "+fmt.Sprint(st.C), "}")
 		case "tick":
 			ls = append(ls, "tick("+fmt.Sprint(st.C)+")")
 		case "decl":
@@ -113,8 +118,14 @@ func (g *c15g) script() C15Script {
 			s.Stmts = append(s.Stmts, C15Stmt{K: "map", C: g.u()})
 		case x == 10:
 			s.Stmts = append(s.Stmts, C15Stmt{K: "loop", C: int64(g.r.Range(0, 40))})
-		case x <= 12:
+		case x == 11:
 			s.Stmts = append(s.Stmts, C15Stmt{K: "tick", C: g.u()})
+		case x == 12:
+			if g.r.Chance(1, 2) {
+				s.Stmts = append(s.Stmts, C15Stmt{K: "loopi", C: int64(g.r.Range(0, 12))})
+			} else {
+				s.Stmts = append(s.Stmts, C15Stmt{K: "ifblk", C: g.u()})
+			}
 		default:
 			s.Stmts = append(s.Stmts, C15Stmt{K: "decl", C: g.u()})
 		}
@@ -196,12 +207,12 @@ func (g *c15g) setOp(obj int) plan.Op {
 	case x < 8:
 		return plan.Op{Kind: plan.OpSet, Obj: obj, Name: "inx", Val: vp(g.value(0))}
 	case x < 9:
-		return plan.Op{Kind: plan.OpSet, Obj: obj, Name: []string{"cst", "gx", "late", "acc"}[g.r.Intn(4)], Val: vp(g.value(0))}
+		return plan.Op{Kind: plan.OpSet, Obj: obj, Name: []string{"cst", "gx", "late", "acc", "acc2", "blk", "i"}[g.r.Intn(7)], Val: vp(g.value(0))}
 	}
 	return plan.Op{Kind: plan.OpSet, Obj: obj, Name: "nosuch", Val: vp(plan.Int(g.u()))}
 }
 
-var c15Names = []string{"ini", "ins", "inx", "cst", "gx", "gi", "gs", "arr", "n", "m", "acc", "late", "nf", "extra", "nosuch", "tick"}
+var c15Names = []string{"ini", "ins", "inx", "cst", "gx", "gi", "gs", "arr", "n", "m", "acc", "acc2", "blk", "i", "tmp", "late", "nf", "extra", "nosuch", "tick"}
 
 func (g *c15g) readOp(obj int) plan.Op {
 	switch g.r.Intn(5) {
